@@ -36,6 +36,7 @@ func C04(c *core.Ctx) {
 	blindFields(c, "C04-R4")
 	schemaObjectRule(c, "C04-R4")
 	c04Stale(c)
+	c04InputsKept(c)
 	c04ScenarioNotes(c)
 	c04ReadOnly(c)
 	_ = p
